@@ -27,6 +27,10 @@ def build(repo):
     f = src.fn(TYPE, "supports_negate", "impl TypeLayout")
     b = translate(f["body"], [Rule("R1", "Self :: Native", "TypeLayout :: Native", why="Self -> TypeLayout")], log, "TypeLayout::supports_negate")
     check_closed(b, "supports_negate")
+    # kind tests of TypeLayout a change may route the decision through: real text, under their own contracts
+    fnum = src.fn(TYPE, "is_numeric", "impl TypeLayout")
+    bnum = translate(fnum["body"], [Rule("R1", "Self :: Native", "TypeLayout :: Native", why="Self -> TypeLayout")], log, "TypeLayout::is_numeric")
+    check_closed(bnum, "is_numeric")
     gen = header(log, f"{TYPE}: TypeLayout::supports_negate") + SPEC + f"""
 impl TypeLayout {{
     //@ OBL C02.negate.sound
@@ -35,11 +39,17 @@ impl TypeLayout {{
     {{
 {render(b, 2)}
     }}
+    //@ OBL C02.kind.is_numeric
+    pub fn is_numeric(&self, allow_byte: bool) -> (r: bool)
+        ensures r == (resolved(*self) matches TypeLayout::Native(k) && (k is Int || k is BigInt || k is Float || (allow_byte && k is Byte)))
+    {{
+{render(bnum, 2)}
+    }}
 }}
 }} // verus!
 fn main() {{}}
 """
-    return gen, [Obl("C02.negate.sound", ["C02", "C03"], fn="TypeLayout::supports_negate", desc="supports_negate: exactly the kinds on which the run-time unary minus yields a value (int, bigint, float)")], log
+    return gen, [Obl("C02.kind.is_numeric", ["C02", "C03"], fn="TypeLayout::is_numeric", desc="is_numeric: int, bigint, float -- and byte only when asked for"), Obl("C02.negate.sound", ["C02", "C03"], fn="TypeLayout::supports_negate", desc="supports_negate: exactly the kinds on which the run-time unary minus yields a value (int, bigint, float)")], log
 
 
 UNITS = [VUnit("c02_negate", ["C02", "C03"], "unary minus: static support = run-time support", build)]
